@@ -284,7 +284,7 @@ def step (st : St) (line : String) : St × List String :=
       | _ => (0, 0)
     let st' := setBond st (nat! b) fun _ => { pp := pidx pp, op := nat! op, cons, ioC := cons.map fun _ => [] }
     ({ st' with isa := st'.bonds.map fun bd => Hs.Isa.init bd.cons.length }, [])
-  | ["SIC", b] => (setBond st (nat! b) fun bd => { bd with sic := true }, [])
+  | "SIC" :: b :: _ => (setBond st (nat! b) fun bd => { bd with sic := true }, [])
   | "IO" :: b :: who :: rest =>
     let pcs := nats (rest.getD 0 "")
     match who.splitOn ":" with
